@@ -149,6 +149,22 @@ func Equal(a, b *V) bool {
 	return false
 }
 
+// viewOf is the documented result of cdr / rest / slice on a list or vector
+// under Interp.MutLists: a view that shares its ELEMENTS' storage with the
+// source (an in-place sort of either shows through the other) but cannot grow
+// into it (capacity clamped); a view of a literal is as protected as the
+// literal.
+func viewOf(src *V, kind string, i, j int) *V {
+	var v *V
+	if kind == "vector" {
+		v = Vec(src.C[i:j:j])
+	} else {
+		v = QList(src.C[i:j:j])
+	}
+	v.Sealed = src.Sealed
+	return v
+}
+
 func seqOf(in *Interp, kind string, cells []*V) (*V, *Err) {
 	switch kind {
 	case "list":
@@ -294,6 +310,9 @@ func installBuiltins(in *Interp, p *Package) {
 		if len(a[0].C) < 2 {
 			return Nil(), nil
 		}
+		if in.MutLists {
+			return viewOf(a[0], "list", 1, len(a[0].C)), nil
+		}
 		return QList(append([]*V{}, a[0].C[1:]...)), nil
 	})
 	B("rest", 1, 1, func(in *Interp, env *Env, a []*V) (*V, *Err) {
@@ -302,6 +321,9 @@ func installBuiltins(in *Interp, p *Package) {
 		}
 		if len(a[0].C) < 2 {
 			return Nil(), nil
+		}
+		if in.MutLists {
+			return viewOf(a[0], "list", 1, len(a[0].C)), nil
 		}
 		return QList(append([]*V{}, a[0].C[1:]...)), nil
 	})
@@ -388,6 +410,23 @@ func installBuiltins(in *Interp, p *Package) {
 		c := append(append([]*V{}, a[1].C...), a[2:]...)
 		return seqOf(in, ts, c)
 	})
+	// append!: "Appends values to vec, mutating it in place. Returns the modified
+	// vector."  The vector keeps its identity; a view taken earlier never sees the
+	// appended values ("a view cannot grow into the memory behind it"), and
+	// whether it still shares the OLD elements afterwards is not documented, so
+	// the reference always moves the vector to fresh storage and the generators
+	// do not take views of vectors they append to.
+	B("append!", 1, -1, func(in *Interp, env *Env, a []*V) (*V, *Err) {
+		if a[0].T == TBytes {
+			in.Unsupported = "append! on bytes"
+			return Nil(), nil
+		}
+		if a[0].T != TVec {
+			return nil, in.errf("first argument is not a vector")
+		}
+		a[0].C = append(append(make([]*V, 0, len(a[0].C)+len(a)-1), a[0].C...), a[1:]...)
+		return a[0], nil
+	})
 	B("concat", 1, -1, func(in *Interp, env *Env, a []*V) (*V, *Err) {
 		ts, e := typeSpec(in, a[0])
 		if e != nil {
@@ -463,6 +502,9 @@ func installBuiltins(in *Interp, p *Package) {
 		case TBytes:
 			asBytes, isBytes = append([]byte{}, s.B[i:j]...), true
 		default:
+			if in.MutLists && (ts == "list" || ts == "vector") {
+				return viewOf(s, ts, int(i), int(j)), nil
+			}
 			cells = append([]*V{}, s.C[i:j]...)
 		}
 		switch ts {
@@ -1477,6 +1519,11 @@ func installBuiltins(in *Interp, p *Package) {
 			for j := i; j > 0; j-- {
 				lt, e := lessFn(cells[j], cells[j-1])
 				if e != nil {
+					if in.MutLists && !a[1].Sealed {
+						// which elements have already moved when the predicate
+						// fails is not documented
+						in.Unsupported = "in-place sort interrupted by a failing predicate"
+					}
 					return nil, e
 				}
 				if !lt {
@@ -1484,6 +1531,22 @@ func installBuiltins(in *Interp, p *Package) {
 				}
 				cells[j], cells[j-1] = cells[j-1], cells[j]
 			}
+		}
+		if in.MutLists {
+			// "A mutable list is sorted in place ... A quoted program literal is
+			// never modified -- its elements are sorted into a fresh list"
+			if a[1].Sealed {
+				if a[1].T == TVec {
+					in.Unsupported = "stable-sort of a vector slice of a literal"
+					return Nil(), nil
+				}
+				out := *a[1]
+				out.Sealed = false
+				out.C = cells
+				return &out, nil
+			}
+			copy(a[1].C, cells)
+			return a[1], nil
 		}
 		// sorts in place: the result is the same container kind as the input
 		if a[1].T == TVec {
